@@ -62,3 +62,5 @@ require (
 )
 
 replace filippo.io/sunlight => /repo
+
+replace crawshaw.io/sqlite => ./_third_party/sqlite
